@@ -112,8 +112,9 @@ void check_lookups(const NodeT& n, const MV& m, std::string* err, bool first_mat
       size_t got = (size_t)(it - n.MemberBegin());
       if (!dup && got != i) bad("FindMember(view) returned the wrong member for " + k);
       if (dup && m.o[got].first != k) bad("FindMember(view) returned a member with another key");
-      if (dup && first_match && got != first) bad("FindMember(view) did not return the first member named " + k);
-      if (dup && first_match && it2 != n.MemberEnd() && (size_t)(it2 - n.MemberBegin()) != first)
+      const bool want_first = first_match && !m.has_map;  // with a lookup map any member carrying the key may be returned
+      if (dup && want_first && got != first) bad("FindMember(view) did not return the first member named " + k);
+      if (dup && want_first && it2 != n.MemberEnd() && (size_t)(it2 - n.MemberBegin()) != first)
         bad("FindMember(ptr,len) did not return the first member named " + k);
       if (it2 == n.MemberEnd()) bad("FindMember(ptr,len) misses existing key " + k);
       else if (!dup && it2 != it) bad("FindMember(ptr,len) != FindMember(view)");
